@@ -27,6 +27,8 @@ Proof. split; reflexivity. Qed.
    handshake deadline is cleared in both directions on both ends. *)
 Theorem c17_close_glue_facts :
   Gen.Shapes2.pipe_on_down_report_closes = "up"%string /\ Gen.Shapes2.pipe_on_up_report_closes = "down"%string /\
+  (* ... where "down report" means what it says: each copy loop, in the debug branch too, reports on the channel of the side it reads *)
+  Gen.Shapes2.pipe_copy_loops = "pipeDebugData(downPipe,down,up);pipeDebugData(upPipe,up,down);pipeData(downPipe,down,up);pipeData(upPipe,up,down)"%string /\
   Gen.Shapes2.server_handshake_deadline_cleared = "SetDeadline(time.Time{})"%string /\
   Gen.Shapes2.client_handshake_deadline_cleared = "SetDeadline(time.Time{})"%string.
 Proof. repeat split; reflexivity. Qed.
